@@ -40,7 +40,7 @@ theorem parse_marshal_wire (T : Tables) (hT : T.OK) (na : Char → Bool) (maxLen
     (hoob : a.oobFDs = some [])
     (hts : allWF ts = true) (hitems : Code.topItems pv = .ok items)
     (hrep : Code.RepFields fdl vs true ts items 0 fdl.length) (hkeys : Code.KeysOKList items)
-    (henc : Spec.encodeAll Spec.alignTable (endianOf true) ts vs 0 = some bs) (hfuel : depthAll vs ≤ fuel)
+    (henc : Spec.encodeAll Code.genAlign (endianOf true) ts vs 0 = some bs) (hfuel : depthAll vs ≤ fuel)
     (h : construct T (wireCodec fuel) na maxLen st (.methodCall a) = (st', .ok m)) :
     ∃ m' : Msg PyVal, parseMessage T (wireCodec fuel) m.raw (some fdl) = .ok m' ∧
       m'.cls = m.cls ∧ m'.serial = m.serial ∧ m'.expectReply = m.expectReply ∧ m'.autoStart = m.autoStart ∧
